@@ -56,6 +56,137 @@ func lensOver(r *Rand, n, used, limit int, must []int) []int {
 	return lens
 }
 
+// synthDenseDeflate builds one final dynamic block whose literal/length code uses 257 or more
+// symbols with a SHORT end-of-block code and long codes for everything else (shape 0: EOB 1 bit +
+// 256 symbols of 9 bits; shape 1: EOB 2 bits, one more 2-bit symbol, 256 symbols of 9 bits), some
+// literals unused, followed by `nlits` literals and the end-of-block code - so that the end of the
+// stream falls at every bit alignment.  A reader that estimates the bits it may pull before the
+// end-of-block code from anything but that code's own length over-reads a ReadByte-only source.
+func synthDenseDeflate(r *Rand, shape, nlits int) []byte {
+	w := &bitW{}
+	w.bit(1)
+	w.bits(2, 2)
+	nlit := 286
+	litLens := make([]int, nlit)
+	cand := []int{}
+	for s := 0; s < nlit; s++ {
+		if s != 256 {
+			cand = append(cand, s)
+		}
+	}
+	// drop 29 symbols (at least one literal among them) so that 256 remain
+	drop := map[int]bool{r.Intn(256): true}
+	for len(drop) < len(cand)-256 {
+		drop[cand[r.Intn(len(cand))]] = true
+	}
+	var used []int
+	for _, s := range cand {
+		if !drop[s] {
+			used = append(used, s)
+		}
+	}
+	if shape == 0 {
+		litLens[256] = 1
+		for _, s := range used {
+			litLens[s] = 9
+		}
+	} else {
+		litLens[256] = 2
+		litLens[used[len(used)-1]] = 2 // a length symbol (or a high literal) with a 2-bit code
+		extra := cand[0]
+		for _, s := range cand {
+			if drop[s] && s < 256 {
+				extra = s
+			}
+		}
+		_ = extra
+		for _, s := range used[:len(used)-1] {
+			litLens[s] = 9
+		}
+		// 1/4 + 1/4 + 255/512 leaves 1/512: one more 9-bit symbol taken from the dropped ones
+		for _, s := range cand {
+			if drop[s] && s != 256 {
+				litLens[s] = 9
+				break
+			}
+		}
+	}
+	ndist := 1
+	distLens := []int{0}
+	all := append(append([]int{}, litLens...), distLens...)
+	type cl struct {
+		sym   int
+		extra uint64
+		nb    uint
+	}
+	var seq []cl
+	for i := 0; i < len(all); {
+		run := 1
+		for i+run < len(all) && all[i+run] == all[i] {
+			run++
+		}
+		switch {
+		case i > 0 && all[i-1] == all[i] && run >= 3 && all[i] != 0:
+			n := min(run, 6)
+			seq = append(seq, cl{16, uint64(n - 3), 2})
+			i += n
+		case all[i] == 0 && run >= 3:
+			n := min(run, 10)
+			seq = append(seq, cl{17, uint64(n - 3), 3})
+			i += n
+		default:
+			seq = append(seq, cl{all[i], 0, 0})
+			i++
+		}
+	}
+	usedCl := map[int]bool{}
+	for _, c := range seq {
+		usedCl[c.sym] = true
+	}
+	var clSyms []int
+	for s := 0; s < 19; s++ {
+		if usedCl[s] {
+			clSyms = append(clSyms, s)
+		}
+	}
+	clLens := make([]int, 19)
+	ll := randCompleteLens(r, len(clSyms), 7)
+	for i, s := range clSyms {
+		clLens[s] = ll[i]
+	}
+	hclen := 4
+	for i, s := range flClenOrder {
+		if clLens[s] != 0 && i+1 > hclen {
+			hclen = i + 1
+		}
+	}
+	w.bits(uint64(nlit-257), 5)
+	w.bits(uint64(ndist-1), 5)
+	w.bits(uint64(hclen-4), 4)
+	for _, s := range flClenOrder[:hclen] {
+		w.bits(uint64(clLens[s]), 3)
+	}
+	clCodes := canonCodes(clLens)
+	for _, c := range seq {
+		w.code(clCodes[c.sym], uint(clLens[c.sym]))
+		w.bits(c.extra, c.nb)
+	}
+	litCodes := canonCodes(litLens)
+	var lits []int
+	for s := 0; s < 256; s++ {
+		if litLens[s] > 0 {
+			lits = append(lits, s)
+		}
+	}
+	for i := 0; i < nlits; i++ {
+		s := lits[r.Intn(len(lits))]
+		w.code(litCodes[s], uint(litLens[s]))
+	}
+	w.code(litCodes[256], uint(litLens[256]))
+	w.align()
+	return w.buf
+}
+
 // synthDeflate builds one synthetic DEFLATE stream of 1-3 blocks.
 func synthDeflate(r *Rand) []byte {
 	w := &bitW{}
@@ -380,9 +511,12 @@ func execFl(o *Out, id, line string) {
 		// the same reader model after Reset: a reader that has read some of an earlier stream
 		// (one of three canned ones: long enough to fill and wrap the 32 KiB window, short, corrupt)
 		// is reset onto `in` - tied to theorem C14_flate_reset_fresh
-		if len(in) > 0 && len(in) <= 3000 {
+		if len(in) > 0 && len(in) <= 3000 && (o.tier == "thorough" || rr.Intn(10) == 0) {
 			prevs := flCannedPrevs()
-			pi := rr.Intn(len(prevs))
+			pi := 1 + rr.Intn(len(prevs)-1)
+			if rr.Intn(6) == 0 {
+				pi = 0 // the long earlier stream is slow in the model: one scenario in six
+			}
 			pk := rr.Intn(8)
 			if pi == 0 && rr.Intn(2) == 0 {
 				pk = 12 + rr.Intn(8) // far enough into the long stream for the window to be full
@@ -574,6 +708,12 @@ func genFl(r *Rand, tier string, emit func(string)) {
 		e(s)
 		if r.Intn(4) == 0 {
 			valid = append(valid, s)
+		}
+	}
+	// dense literal/length codes with a short end-of-block code, the stream ending at every bit alignment
+	for shape := 0; shape < 2; shape++ {
+		for k := 0; k < 18; k++ {
+			e(synthDenseDeflate(r, shape, k))
 		}
 	}
 	// stored blocks that bring the output exactly to (or one byte around) the sizes at which the
